@@ -1,6 +1,24 @@
 """JSON tree descriptions <-> implementation nodes <-> Coq node terms."""
 from lib import *  # noqa
-from remerkleable.tree import RootNode, PairNode, zero_node, Node
+from remerkleable.tree import RootNode, PairNode, zero_node, Node, NavigationError
+
+
+class NoChildren:
+    """a VirtualSource that knows no children: every node it backs is a leaf"""
+
+    def get_left(self, key):
+        raise NavigationError
+
+    def get_right(self, key):
+        raise NavigationError
+
+    def is_leaf(self, key):
+        return True
+
+
+def virtual_leaf(root):
+    from remerkleable.virtual import VirtualNode
+    return VirtualNode(root, NoChildren())
 
 
 def tree_py(t):
@@ -9,6 +27,10 @@ def tree_py(t):
         return RootNode(bytes.fromhex(t[1]))
     if k == "Z":
         return zero_node(t[1])
+    if k == "V":                          # a lazily loaded (virtual) leaf with this root
+        return virtual_leaf(bytes.fromhex(t[1]))
+    if k == "VZ":                         # a lazily loaded leaf whose root is the zero hash of height t[1]
+        return virtual_leaf(zero_node(t[1]).merkle_root())
     if k == "P":
         return PairNode(tree_py(t[1]), tree_py(t[2]))
     raise ValueError(t)
@@ -20,6 +42,10 @@ def tree_coq(t):
         return '(R "%s")' % t[1]
     if k == "Z":
         return "(Zn %s)" % cnat(t[1])
+    if k == "V":
+        return '(V "%s")' % t[1]
+    if k == "VZ":
+        return "(VZn %s)" % cnat(t[1])
     if k == "P":
         return "(P %s %s)" % (tree_coq(t[1]), tree_coq(t[2]))
     raise ValueError(t)
@@ -34,7 +60,7 @@ def tree_same(n, t):
         return tree_same(n.get_left(), t[1]) and tree_same(n.get_right(), t[2])
     if not n.is_leaf():
         return False
-    want = bytes.fromhex(t[1]) if k == "R" else zero_node(t[1]).merkle_root()
+    want = bytes.fromhex(t[1]) if k in ("R", "V") else zero_node(t[1]).merkle_root()
     return n.merkle_root() == want
 
 
